@@ -178,6 +178,10 @@ structure Src where
   | some a => f a
   | none => pure none
 
+/-- `read_to_end` on the in-memory source: everything from the current position on -/
+@[inline] def Src.readToEnd (s : Src) : List UInt8 × Src :=
+  (s.bytes.drop s.pos, { s with pos := max s.pos s.bytes.length })
+
 /-- the result of the external codec: `none` is `Err(_)` -/
 @[inline] def liftDecompress (r : Option (List UInt8)) : M (List UInt8) :=
   match r with
